@@ -87,8 +87,9 @@ Proof.
       assert (Hpos : (0 <? np)%nat = true).
       { destruct (p_shape p); simpl in *; try discriminate; injection H6 as <-; reflexivity. }
       exists k, u', m, l. repeat split; auto.
-      * unfold reconstructs. rewrite H7. exact Hpos.
-      * exists (mkMsg (lk_msg l) (p_hdrs p) np). auto.
+      * unfold reconstructs. rewrite H7. destruct (stored_rec_intact (lk_msg l) p np) as (_ & A2 & _). rewrite A2. exact Hpos.
+      * exists (stored_rec (lk_msg l) p np). destruct (stored_rec_intact (lk_msg l) p np) as (A1 & A2 & A3).
+        rewrite A1, A2, A3. auto.
     + now apply Hrej.
 Qed.
 
